@@ -10,7 +10,7 @@ C16_apply_build C16_reverse_apply_build C16_reverse_apply_to_B C16_apply_build_n
 C16_reverse_apply_chain_witness
 C16_diffxml_roundtrip C16_diffxml_roundtrip_bytes C16_diffxml_export_too_complex C16_diffxml_export_order
 C16_diffxml_import_total C16_diffxml_import_order C16_diffxml_import_prefix
-C16_diffxml_build_roundtrip C16_diffxml_build_ret1_einval""".split()]
+C16_diffxml_build_roundtrip C16_diffxml_build_ret1_einval C16_diffxml_import_attr_order""".split()]
 CHECK_MODULES = ["Hw.Props.C16"]
 TRUSTED = ["the observation function of harness/h_diff.c (DFS dump of names, infos, local/total memory, keys, and the opaque "
            "shape tokens standing for type/subtype/os_index/sets/attribute bytes/allowed sets/distances/memattrs/cpukinds)",
